@@ -559,7 +559,7 @@ func c04RandVal(r *Rng, pool []c04Val, depth int) *sx.Node {
 func init() {
 	families["c04total"] = &Family{
 		Label: "c04",
-		Gen: func(r *Rng, tier string, emit func(*sx.Node)) {
+		Gen: withProfile(genProfile{edgeInts: true, utf8Strings: true, unitEdges: true, anyDeep: true, anyDirty: true, oneofRich: true}, func(r *Rng, tier string, emit func(*sx.Node)) {
 			thorough := tier == "thorough"
 			pool := c04Pool()
 			fixed := c04FixedSchemas()
@@ -570,6 +570,15 @@ func init() {
 				for _, pv := range pool {
 					for _, k := range []string{"u", "v", "s", "c"} {
 						ops = append(ops, op(k, pv.v))
+					}
+				}
+				// a schema with units: every edge string of its own unit definition (zero counts in every position, totals at
+				// the int64 edge, counts beyond int64), alone and as list item / map value / object property
+				for _, u := range schemaUnits(sc.s) {
+					for _, txt := range unitEdgeStrings(u) {
+						for _, v := range []*sx.Node{vS(txt), vSl(tAnySlice, vS(txt)), vM(tStrMap, vS("x"), vS(txt)), vM(tAnyMap, vS("k"), vS(txt))} {
+							ops = append(ops, op("u", v), op("c", v))
+						}
 					}
 				}
 				if nic && !sc.defaultCyc {
@@ -635,7 +644,7 @@ func init() {
 			for _, sc := range c04NotWf() {
 				emit(c04Case(sc, true, []*sx.Node{op("u", vNil())}))
 			}
-		},
+		}),
 		Run: runC04Case,
 	}
 }
